@@ -30,7 +30,7 @@ pub fn run(run: &Run) {
     let seed = run.opts.seed;
 
     // ---- family 1: random quantified / element-wise filters
-    let n = run.opts.size(120_000, 10_000_000);
+    let n = run.opts.size(120_000, 3_000_000);
     run.parallel("random", n, |i, l| {
         let mut r = Rng::derive(seed, "c02-random", i);
         let eng = &envs[r.below(envs.len())];
@@ -77,7 +77,7 @@ pub fn run(run: &Run) {
     });
 
     // ---- family 2: indexed value expressions
-    let n = run.opts.size(80_000, 5_000_000);
+    let n = run.opts.size(80_000, 1_500_000);
     run.parallel("values", n, |i, l| {
         let mut r = Rng::derive(seed, "c02-values", i);
         let eng = &envs[r.below(envs.len())];
